@@ -21,6 +21,7 @@
 #ifndef K
 #define K 3                  /* bound on the observation list in symbolic pre-states */
 #endif
+#define EMIT_MAXD(mtu) (((mtu) - 34) / 14)
 #ifndef ICON_MAX
 #define ICON_MAX 32768
 #endif
@@ -85,7 +86,9 @@ static void setup_platform(int faults) {
     constrain_cfg(&g_cfgA, faults);
     g_faults_on = faults ? 1 : 0;
     if (faults) {
-        for (int i = 0; i < V_MAXFAIL; i++) { g_fail_malloc[i] = in.fail_malloc[i] & 1; g_fail_send[i] = in.fail_send[i] & 1; }
+#define FS(i) g_fail_malloc[i] = in.fail_malloc[i] & 1; g_fail_send[i] = in.fail_send[i] & 1
+        FS(0); FS(1); FS(2); FS(3); FS(4); FS(5); FS(6); FS(7);
+#undef FS
     }
 }
 
